@@ -44,3 +44,8 @@ pub fn quiet_panics() {
         }
     }));
 }
+
+/// The gear-hash table constants (taken as data from the gearhash crate).
+pub fn gear_table() -> [u64; 256] {
+    gearhash::DEFAULT_TABLE
+}
